@@ -528,7 +528,7 @@ def multi_future(
             for f in children_futs:
                 try:
                     result_list.append(f.result())
-                except Exception as e:
+                except (Exception, asyncio.CancelledError) as e:
                     if future.done():
                         if not isinstance(e, quiet_exceptions):
                             app_log.error(
